@@ -22,7 +22,10 @@ counterexamples (each replayed on the real code by `corpus/C15/*.json`).  What i
 * `conforms_accepted`, `conforms_commits` — a document that obeys the schema as documented is
   accepted and can be committed;
 * `nested_leaf_array_unchecked` — negative witness for the second sentence of the property:
-  a nested keyword holding an array of numbers is accepted (and silently loses the values).
+  a nested keyword holding an array of numbers is accepted (and silently loses the values);
+* `accepted_conforms_partial` — the recorded classes are complete: an accepted document obeys the
+  documented rules unless it has an unknown top-level name, an array inside a nested array or
+  an untyped nested leaf value (`leavesTypedTop`).
 -/
 set_option linter.unusedSectionVars false
 set_option linter.unusedSimpArgs false
@@ -546,6 +549,123 @@ theorem conforms_commits (blank : σ → Bool) (size : J σ → Nat) (cap : Nat)
     simp [benign, h2, h3, hsz]
   | _ => rfl
 
+/-! ## accepted ⇒ conforming, away from the recorded classes -/
+
+mutual
+theorem nestedStrict_of_valid : ∀ (n : Nested σ) (v : J σ), v.isNull = false →
+    nestedValid n v = true → arrInArr n v = false → leavesTyped n v = true →
+    nestedStrict n v = true
+  | n, .arr a, _, h, hb, ht => by
+    simp only [nestedValid] at h
+    simp only [arrInArr] at hb
+    simp only [leavesTyped] at ht
+    simp only [nestedStrict]
+    exact elemsStrict_of_valid n a h hb ht
+  | n, .obj kv, _, h, hb, ht => by
+    simp only [nestedValid, Bool.and_eq_true] at h
+    simp only [arrInArr] at hb
+    simp only [leavesTyped] at ht
+    simp only [nestedStrict, Bool.and_eq_true]
+    exact ⟨entriesStrict_of_valid n.props kv h.1 hb ht, h.2⟩
+  | _, .null, hn, _, _, _ => by simp [J.isNull] at hn
+  | _, .bool _, _, h, _, _ => by simp [nestedValid] at h
+  | _, .num _ _, _, h, _, _ => by simp [nestedValid] at h
+  | _, .str _, _, h, _, _ => by simp [nestedValid] at h
+theorem elemsStrict_of_valid : ∀ (n : Nested σ) (a : JL σ),
+    elemsValid n a = true → arrInArrElems n a = false → leavesTypedElems n a = true →
+    elemsStrict n a = true
+  | _, .nil, _, _, _ => by simp [elemsStrict]
+  | n, .cons e t, h, hb, ht => by
+    simp only [elemsValid, Bool.and_eq_true] at h
+    cases e with
+    | null =>
+      simp only [arrInArrElems, Bool.false_or] at hb
+      simp only [leavesTypedElems, Bool.true_and] at ht
+      simp only [elemsStrict, Bool.and_eq_true]
+      exact ⟨by simpa [nestedValid] using h.1, elemsStrict_of_valid n t h.2 hb ht⟩
+    | obj kv =>
+      simp only [arrInArrElems, Bool.or_eq_false_iff] at hb
+      simp only [leavesTypedElems, Bool.and_eq_true] at ht
+      have h1 := h.1
+      simp only [nestedValid, Bool.and_eq_true] at h1
+      simp only [elemsStrict, Bool.and_eq_true]
+      exact ⟨⟨entriesStrict_of_valid n.props kv h1.1 hb.1 ht.1, h1.2⟩,
+        elemsStrict_of_valid n t h.2 hb.2 ht.2⟩
+    | arr a => simp [arrInArrElems] at hb
+    | bool b => simp [nestedValid] at h
+    | num m x => simp [nestedValid] at h
+    | str x => simp [nestedValid] at h
+theorem entriesStrict_of_valid : ∀ (props : NProps σ) (kv : JO σ),
+    entriesValid props kv = true → arrInArrEntries props kv = false →
+    leavesTypedEntries props kv = true → entriesStrict props kv = true
+  | _, .nil, _, _, _ => by simp [entriesStrict]
+  | props, .cons k v t, h, hb, ht => by
+    simp only [entriesValid, Bool.and_eq_true] at h
+    simp only [arrInArrEntries, Bool.or_eq_false_iff] at hb
+    simp only [leavesTypedEntries, Bool.and_eq_true] at ht
+    simp only [entriesStrict, Bool.and_eq_true]
+    refine ⟨?_, entriesStrict_of_valid props t h.2 hb.2 ht.2⟩
+    have h1 := h.1
+    have hb1 := hb.1
+    have ht1 := ht.1
+    cases hf : props.find k with
+    | none => simp [hf] at h1
+    | some p =>
+      cases p with
+      | leaf l => simpa [hf] using ht1
+      | object child =>
+        simp only [hf] at h1 hb1 ht1 ⊢
+        cases hn : v.isNull with
+        | true => simpa [hn] using h1
+        | false =>
+          simp only [hn] at h1 ⊢
+          exact nestedStrict_of_valid child v hn (by simpa using h1) hb1 ht1
+end
+
+theorem fieldsStrict_of_valid (s : Schema σ) (hid : idNotNested s = true) : ∀ (kv : JO σ),
+    fieldsValid s kv = true → unknownTop s kv = false → arrInArrTop s kv = false →
+    leavesTypedTop s kv = true → fieldsStrict s kv = true
+  | .nil, _, _, _, _ => by simp [fieldsStrict]
+  | .cons k v t, h, hu, hb, ht => by
+    simp only [fieldsValid, Bool.and_eq_true] at h
+    simp only [unknownTop, Bool.or_eq_false_iff] at hu
+    simp only [arrInArrTop, Bool.or_eq_false_iff] at hb
+    simp only [leavesTypedTop, Bool.and_eq_true] at ht
+    simp only [fieldsStrict, Bool.and_eq_true]
+    refine ⟨?_, fieldsStrict_of_valid s hid t h.2 hu.2 hb.2 ht.2⟩
+    by_cases hk : k = s.idField
+    · simp [hk]
+    · simp only [hk, if_false]
+      have h1 := h.1
+      have hb1 := hb.1
+      have ht1 := ht.1
+      cases hn : s.findNested k with
+      | some n =>
+        simp only [hn] at h1 hb1 ht1 ⊢
+        cases hnull : v.isNull with
+        | true => cases v <;> simp_all [J.isNull, nestedValid]
+        | false =>
+          simp only [Bool.false_eq_true, if_false]
+          exact nestedStrict_of_valid n v hnull h1 hb1 ht1
+      | none =>
+        simp only [hn] at h1 ⊢
+        cases hf : s.findFlat k with
+        | some l => simpa [hf, leafStrict] using h1
+        | none => simp [hk, hf, hn] at hu
+
+/-- **completeness of the recorded classes**: a document accepted by `add_document` obeys the
+documented rules, unless it has an unknown top-level name, an array directly inside a nested
+array, or a nested leaf value that is not typed as documented (unchecked array elements,
+non-integer in an i64 property).  Together with `conforms_accepted` this characterises what
+add-time validation accepts. -/
+theorem accepted_conforms_partial (blank : σ → Bool) (s : Schema σ) (kv : JO σ)
+    (hid : idNotNested s = true) (h : validateAdd blank s (.obj kv) = true)
+    (hu : unknownTop s kv = false) (hb : arrInArrTop s kv = false)
+    (ht : leavesTypedTop s kv = true) : conforms blank s (.obj kv) = true := by
+  simp only [validateAdd, Bool.and_eq_true] at h
+  simp only [conforms, Bool.and_eq_true]
+  exact ⟨h.1, fieldsStrict_of_valid s hid kv h.2 hu hb ht⟩
+
 /-! ## negative witnesses (atoms are `Nat`; `0` = id field) -/
 
 /-- schema: id `0`, text field `1`, nested field `2` with a keyword property `3` -/
@@ -613,5 +733,11 @@ example : benign (fun _ => 0) 0 wSchema wUnknown = false ∧
 /-- the rejection lemmas apply: a scalar inside a nested array -/
 example : validateAdd (fun _ => false) wSchema
     (.obj (.cons 0 (.str 7) (.cons 2 (.arr (.cons (.str 4) .nil)) .nil))) = false := by decide
+
+example : leavesTypedTop wSchema
+    (.cons 0 (.str 7) (.cons 2 (.obj (.cons 3 (.arr (.cons (.num 1 0) .nil)) .nil)) .nil)) = false ∧
+    leavesTypedTop wSchema
+    (.cons 0 (.str 7) (.cons 2 (.obj (.cons 3 (.arr (.cons (.str 1) .nil)) .nil)) .nil)) = true := by
+  decide
 
 end SL.Doc
